@@ -102,18 +102,18 @@ WriteFrom(st, bn, n, done) ==
        IF r.blk = 0 THEN [st |-> (IF done = 0 THEN st ELSE r.st), done |-> done]     \* the failed mapping's effects stay only in a partial write
        ELSE WriteFrom(r.st, bn + 1, n - 1, done + 1)
 Write(bn, n) ==
-  /\ nops < MaxOps /\ ssz <= size       \* getShrink: no write while a truncation is pending
+  /\ (MaxOps = 0 \/ nops < MaxOps) /\ ssz <= size       \* getShrink: no write while a truncation is pending
   /\ LET w == WriteFrom(St, bn, n, 0) IN
      /\ w.done > 0
      /\ Put(w.st) /\ size' = IF bn + w.done > size THEN bn + w.done ELSE size
-  /\ nops' = nops + 1 /\ UNCHANGED <<ssz, other>>
+  /\ nops' = (IF MaxOps = 0 THEN nops ELSE nops + 1) /\ UNCHANGED <<ssz, other>>
 (* a WRITE whose first mapping fails is aborted: memory and disk as before - except, in the negative control, nothing: the abort restores everything *)
 Truncate(n) ==
-  /\ nops < MaxOps /\ n # size
+  /\ (MaxOps = 0 \/ nops < MaxOps) /\ n # size
   /\ IF n < size
      THEN LET from == IF ssz < size THEN size ELSE ssz IN Put(ShrinkTo(St, from, n)) /\ ssz' = n
      ELSE UNCHANGED <<dir, ind, dind, store, free>> /\ ssz' = IF ssz <= size THEN n ELSE ssz
-  /\ size' = n /\ nops' = nops + 1 /\ UNCHANGED other
+  /\ size' = n /\ nops' = (IF MaxOps = 0 THEN nops ELSE nops + 1) /\ UNCHANGED other
 
 Next == (\E bn \in 0..(MaxIdx - 1), n \in 1..2 : Write(bn, n)) \/ (\E n \in 0..MaxIdx : Truncate(n))
 Spec == Init /\ [][Next]_vars
